@@ -364,7 +364,7 @@ def main(argv):
         "not_decided": getattr(mod, "NOT_DECIDED", ""),
         "analysed": {"configs": configs_done, "crates": sorted(P.crates), "bodies_in_program": len(P.fns),
                      "bodies_used": len(ctx.analysed["bodies"]), "statics_used": sorted(ctx.analysed["statics"])[:40],
-                     "tree": os.path.basename(os.path.dirname(P.dir))},
+                     "tree": os.path.basename(os.path.dirname(P.dir)), "compile_fail_witnesses": sorted(ctx.analysed.get("witnesses", ()))},
         "controls": controls_ran,
         "known_findings_matched": [v.ident() for v in suppressed],
         "notes": ctx.notes[:40],
